@@ -14,7 +14,7 @@ RULES = {
     'R2': 'the transport connect (only creator of rings/control file/channel sockets) needs accept == 0; refusal sends the error, drops the allocation reference (whose teardown removes the temp dir) and closes the socket; the request dispatcher is registered only inside the connect implementations',
     'R3': 'the connection directory keeps mkdtemp\'s 0700 until the accept callback returned 0 and is then re-owned (c->auth.uid/gid) and given a mode derived from c->auth.mode, in handle_new_connection for both transports; connection files are created with mode & 077 == 0 (0600 or mkstemp under umask 077); chmod(auth.mode) follows chown(auth.uid, auth.gid) of the same path; c->auth is written only by handle_new_connection (peer ids, 0600) and qb_ipcs_connection_auth_set',
 }
-FLOORS = {'R1': 7, 'R2': 7, 'R3': 16}
+FLOORS = {'R1': 7, 'R2': 7, 'R3': 17}
 
 
 def run(ctx):
@@ -221,6 +221,35 @@ def r3_dir(ctx):
         later = [c for c in cms if cval(unwrap(c.args[1])) is None]
         ctx.check('R3', 'dir:chown-before-chmod', bool(later) and all(h.ev_dominates(ev, c) for c in later), ev, 'the directory is re-owned before it is widened',
                   'the directory is widened before it is re-owned')
+    # a refused client's directory goes away again: remove_tempdir() takes the last component off c->description and removes what is
+    # left, so from the moment the directory exists the description carries the suffix at every return (where it is cut off for the
+    # chown / chmod of the directory itself, it is put back before anything can leave)
+    sfx = [ev for ev in h.calls('memcpy') if any(n.get('k') == 'mem' and n.get('f') == 'description' for n in walk(ev.args[0])) and
+           unwrap(ev.args[0]).get('k') != 'mem']
+    cuts = [st for st in h.events('STORE') if unwrap(st.lhs).get('k') == 'idx' and any(n.get('k') == 'mem' and n.get('f') == 'description' for n in walk(st.lhs)) and
+            cval(unwrap(st.rhs)) == 0]
+    if not sfx:
+        raise AnalysisBroken('handle_new_connection: the suffix is never appended to the description')
+    succ_edges = []
+    for b in h.blocks.values():
+        if b.cond is not None and has_call(b.cond, 'mkdtemp'):
+            for (t, lab) in b.succs:
+                if lab in (True, False) and not any(a.op == '==' and a.rc == 0 for a in atoms_of(b.cond, lab)):
+                    succ_edges.append((b.id, t))
+    if not succ_edges:
+        raise AnalysisBroken('handle_new_connection: the success edge of mkdtemp was not found')
+    is_sfx = lambda ev: any(ev.d is x.d for x in sfx)
+    bare = []
+    for (fb, t) in succ_edges:
+        hits, _e, _n = h.search(('edge', fb, t), goal=lambda ev: ev.kind == 'RETURN', stop=is_sfx)
+        bare += [('after mkdtemp', hits[0][0])] if hits else []
+    for st in cuts:
+        hits, _e, _n = h.search(('after', st), goal=lambda ev: ev.kind == 'RETURN', stop=is_sfx)
+        bare += [('after the description was cut back to the directory', hits[0][0])] if hits else []
+    ctx.check('R3', 'dir:description-keeps-its-suffix', not bare, bare[0][1] if bare else sfx[0],
+              'once the directory exists the description has its suffix at every return',
+              'handle_new_connection can return %s without the suffix on c->description: remove_tempdir() strips the last component and removes the rest, so for a refused client it tries to remove /dev/shm itself and the connection directory stays behind, one per refused attempt'
+              % (bare[0][0] if bare else ''))
 
 
 def r3(ctx):
